@@ -368,13 +368,42 @@ fn main() {
     let digest_only = args.flag("--digest");
     println!("sim_sched property={PROP} tier={} VERIF_SEED={base_seed} runs={runs} workers={workers}", tier.name());
     let t0 = std::time::Instant::now();
+    // watchdog: the shuttle build models Mutex and AtomicUsize only; a blocking primitive outside
+    // that model (a std RwLock, Condvar, ...) would park the one OS thread hosting the coroutines.
+    // No progress for 20 s is a harness error (exit 2), never a verdict.
+    static PROGRESS: std::sync::atomic::AtomicU64 = std::sync::atomic::AtomicU64::new(0);
+    std::thread::spawn(|| {
+        let mut last = 0u64;
+        let mut idle = 0u32;
+        loop {
+            std::thread::sleep(std::time::Duration::from_secs(1));
+            let now = PROGRESS.load(std::sync::atomic::Ordering::Relaxed);
+            if now == u64::MAX {
+                return;
+            }
+            if now == last {
+                idle += 1;
+                if idle >= 20 {
+                    println!("HARNESS-ERROR: no simulated run completed for 20 s: SourceView probably blocks on a primitive outside the shuttle model (extend the cfg(sourcemap_verif) hook); the Miri engine runs real std and still applies");
+                    std::process::exit(2);
+                }
+            } else {
+                idle = 0;
+                last = now;
+            }
+        }
+    });
     let accs = simcore::par::run_batch_blocks(
         runs,
         workers,
-        512,
+        256,
         |_| Acc::default(),
-        |acc: &mut Acc, lo, hi, _stop: &AtomicBool| block(acc, base_seed, lo, hi, det_n, 3),
+        |acc: &mut Acc, lo, hi, _stop: &AtomicBool| {
+            block(acc, base_seed, lo, hi, det_n, 3);
+            PROGRESS.fetch_add(1, std::sync::atomic::Ordering::Relaxed);
+        },
     );
+    PROGRESS.store(u64::MAX, std::sync::atomic::Ordering::Relaxed);
     let mut acc = merge(accs);
     let wall = t0.elapsed().as_secs_f64();
     if digest_only {
